@@ -1432,6 +1432,28 @@ func (vm *VM) run() (Addr, bool) {
 					}
 				default:
 					if kind == reflect.Pointer {
+						if v.IsNil() {
+							// The length of an array is constant: a nil pointer
+							// to array is dereferenced only to read an element.
+							length := v.Type().Elem().Len()
+							if c != 0 && length > 0 {
+								panic(errNilPointer)
+							}
+							for i := range length {
+								if b != 0 {
+									vm.setInt(b, int64(i))
+								}
+								vm.pc = bodyAddress
+								addr, breakOut := vm.run()
+								if addr != rangeAddress {
+									return addr, breakOut
+								}
+								if breakOut {
+									break
+								}
+							}
+							break
+						}
 						v = v.Elem()
 					}
 					length := v.Len()
